@@ -112,5 +112,9 @@ cast_pair!(i64_u8, i64, u8);
 cast_pair!(u64_f32, u64, f32);
 cast_pair!(f32_u32, f32, u32);
 cast_pair!(i8_u32, i8, u32);
+cast_pair!(f64_f64, f64, f64);
+cast_pair!(i64_i64, i64, i64);
+cast_pair!(u64_u64, u64, u64);
+cast_quat!(q_f64_f64, f64, f64);
 cast_quat!(q_f64_f32, f64, f32);
 cast_quat!(q_f32_f64, f32, f64);
